@@ -355,6 +355,7 @@ pub fn run(tier: Tier) -> i32 {
         }
     }
     rep.set("rule", json!(format!("Documents of 1-2 (thorough: 3) items from {} items with known contribution to the extent: every bbox-bearing kind (rect, circle, ellipse, line, polyline, polygon, absolute and relative path, image, foreignObject, nested svg, use of rect/circle/symbol), standalone text (anchor point), shape with generated text outside (adds only the shape), box (invisible, included), point (nothing), groups with no/translate/uniform/non-uniform/mirroring/combined transforms, a shape with its own transform, a clipped shape, content of defs/specs/symbol/marker/pattern (nothing), a forward-referenced pair, a loop, a reuse x border {{0,5,13}} x scale {{1,2.5,0.5}} x 9 root attribute sets (none, width with unit, height in percent, both, viewBox, viewBox+width, viewBox+height, all, version+xmlns:xlink). Reference model: union of the known boxes, grown by the border, rounded outward; viewBox = that box; width/height = size x scale in mm; supplied attributes verbatim; a single supplied dimension determines the other by the aspect ratio with the same unit; version/xmlns only when missing. Non-trivial = Ok, non-empty extent, all root attributes as expected.", ITEMS.len())));
+    rep.set("also_later", json!("Rounds 3-5 added items for use chains, clip chains, clipPathUnits, empty clip paths, symbol viewports, and whole documents: settings made by waiting elements (also against a later <config>), a transform on the root, nested <svg x y> without a size."));
     rep.set("also", json!("Also: transforms on <use> and <a>, transform combined with clip-path (on a group, on a shape, and a <use> of such a group), url() references written with quotes / blanks, clip-path on <reuse>, clipPath / mask / marker / pattern / gradient / filter written outside <defs>, variables and expressions in a group's transform, standalone text whose anchor is read from the OUTPUT (relative, text-loc, at a corner, with tspan child, with its own transform), paths with several sub-paths, root width / height given as plain numbers, a root wrapped in <if> / <loop>; derived dimensions must never be inf / NaN. Second review round: a <use> of a <use> (with position / transform), a <use> of an element with its own clip-path, clip-path on <a> and <switch>, clipPathUnits=objectBoundingBox (whole and part of the box), empty and comment-only clip paths (clip everything), <text> with glyph position lists, boxes whose far edge is a whole number only in exact arithmetic (-21.8 + 7.8, 0.7 + 2.3, 100 x 0.3), a <use> with width/height of a <symbol> with a viewBox."));
     let st = run_space(cases.len(), |i| check(&cases[i]));
     rep.sample(json!({"doc": document(&cases[cases.len() / 2]), "border": cases[cases.len() / 2].border}));
